@@ -1,9 +1,10 @@
 import argparse, json, os, sys, traceback
 from common import *
-import fam_map
+import fam_map, fam_diff
 
 FAMILIES = {}
 FAMILIES.update({p: fam_map.check for p in fam_map.PROPS})
+FAMILIES.update({p: fam_diff.check for p in fam_diff.PROPS})
 
 
 def main():
